@@ -536,8 +536,8 @@ func migrateOne(id string, sp mspec) {
 		// win (an earlier option for the same id, CDN options before and after), IPv6 literals, names, odd ports
 		opts := []*telegram.DcOption{}
 		variant := 0
-		for _, ch := range id {
-			variant = (variant*31 + int(ch)) % 4
+		if n, e := strconv.Atoi(id); e == nil {
+			variant = (n*3 + n/7) % 4 // (all four occur among the NewClient scenarios of the quick tier)
 		}
 		if variant == 1 || variant == 3 {
 			opts = append(opts, &telegram.DcOption{ID: 2, IpAddress: "10.9.9.9", Port: 1}, &telegram.DcOption{ID: 6, Cdn: true, IpAddress: "10.9.9.8", Port: 2})
